@@ -3186,17 +3186,6 @@ func checkScopeCountsReferences(c *Ctx, rule string) {
 		return
 	}
 	c.funcs[fi.Name] = true
-	isNameSet := func(t types.Type) bool {
-		if t == nil {
-			return false
-		}
-		mt, ok := t.Underlying().(*types.Map)
-		if !ok {
-			return false
-		}
-		b, ok := mt.Key().Underlying().(*types.Basic)
-		return ok && b.Kind() == types.String
-	}
 	// CheckChangesScope and the package-local functions it calls (two levels): a store into a set of
 	// names (map keyed by string) whose key is read through ForeignKey.RefTable
 	recorded, sets := false, 0
@@ -3240,18 +3229,15 @@ func checkScopeCountsReferences(c *Ctx, rule string) {
 			return true
 		})
 		ast.Inspect(body, func(m ast.Node) bool {
-			switch x := m.(type) {
-			case *ast.AssignStmt:
-				for _, l := range x.Lhs {
-					ix, ok := ast.Unparen(l).(*ast.IndexExpr)
-					if !ok || !isNameSet(info.TypeOf(ix.X)) {
-						continue
-					}
+			if st, ok := m.(ast.Stmt); ok {
+				if key, ok := nameSetKey(c, info, st); ok {
 					sets++
-					if viaRef(ix.Index) {
+					if viaRef(key) {
 						recorded = true
 					}
 				}
+			}
+			switch x := m.(type) {
 			case *ast.CallExpr:
 				if it.depth < 2 {
 					if fn := calleeOf(info, x); fn != nil && fn.Pkg() != nil && fn.Pkg().Path() == pSqlx && !seen[fn] {
@@ -3331,4 +3317,72 @@ func qualifierEscapes(info *types.Info, body *ast.BlockStmt, node ast.Node) bool
 	}
 	walk(f.G.Blocks[0])
 	return escaped
+}
+
+// nameSetKey: the statement records a name in a set keyed by string — `m[k] = …` directly, or `m.add(k)` through a
+// method (or package-local function) that stores its parameter as a key of the map it is given. Returns k.
+func nameSetKey(c *Ctx, info *types.Info, st ast.Node) (ast.Expr, bool) {
+	isNameSet := func(t types.Type) bool {
+		if t == nil {
+			return false
+		}
+		mt, ok := t.Underlying().(*types.Map)
+		if !ok {
+			return false
+		}
+		b, ok := mt.Key().Underlying().(*types.Basic)
+		return ok && b.Kind() == types.String
+	}
+	switch x := st.(type) {
+	case *ast.AssignStmt:
+		if len(x.Lhs) == 1 {
+			if ix, ok := ast.Unparen(x.Lhs[0]).(*ast.IndexExpr); ok && isNameSet(info.TypeOf(ix.X)) {
+				return ix.Index, true
+			}
+		}
+	case *ast.ExprStmt:
+		call, ok := ast.Unparen(x.X).(*ast.CallExpr)
+		if !ok {
+			return nil, false
+		}
+		hf := c.FuncInfoOf(calleeOf(info, call))
+		if hf == nil || hf.Decl.Body == nil {
+			return nil, false
+		}
+		hinfo := hf.Info()
+		var params []types.Object
+		if hf.Decl.Type.Params != nil {
+			for _, fld := range hf.Decl.Type.Params.List {
+				for _, nm := range fld.Names {
+					params = append(params, hinfo.ObjectOf(nm))
+				}
+			}
+		}
+		if len(params) != len(call.Args) {
+			return nil, false
+		}
+		var key ast.Expr
+		ast.Inspect(hf.Decl.Body, func(k ast.Node) bool {
+			as, ok := k.(*ast.AssignStmt)
+			if !ok || len(as.Lhs) != 1 {
+				return true
+			}
+			ix, ok := ast.Unparen(as.Lhs[0]).(*ast.IndexExpr)
+			if !ok || !isNameSet(hinfo.TypeOf(ix.X)) {
+				return true
+			}
+			if id, ok := ast.Unparen(ix.Index).(*ast.Ident); ok {
+				for pi, po := range params {
+					if hinfo.ObjectOf(id) == po {
+						key = call.Args[pi]
+					}
+				}
+			}
+			return true
+		})
+		if key != nil {
+			return key, true
+		}
+	}
+	return nil, false
 }
